@@ -75,6 +75,10 @@ static Result run_kkt(const json &c) {
   MatL AN = Al * N;
   Eigen::JacobiSVD<Eigen::MatrixXd> svdAN(AN.cast<double>());
   double smax = svdAN.singularValues()(0), smin = svdAN.singularValues()(n - k - 1);
+  // conditioning of the reduced problem as the routine sees it: A*Q is formed first (errors ~ eps*|A|), then only the
+  // block belonging to null(B) is used, so the relevant ratio is |A|_2 / sigma_min(A N), not sigma_max(A N)/sigma_min(A N)
+  Eigen::JacobiSVD<Eigen::MatrixXd> svdA(A);
+  smax = std::max(smax, svdA.singularValues()(0));
   double condAN = smax / std::max(smin, 1e-300);
   double condB = 1.0;
   if (k) {
@@ -122,7 +126,9 @@ static Result run_kkt(const json &c) {
     }
   VecL xl = x.cast<LD>();
   const LD eps = 2.220446049250313e-16L;
-  LD nA = LD(svdAN.singularValues()(0)), nAfull = Al.norm(), nB = k ? Bl.norm() : 0, nx = std::max(xl.norm(), xref.norm()), nb = bl.norm();
+  LD nA = LD(svdAN.singularValues()(0)), nAfull = Al.norm(), nB = k ? Bl.norm() : 0, nb = bl.norm(),
+     // scale of x: when the exact minimiser is (nearly) 0 the computed one is rounding noise of size eps*|b|/|A|
+     nx = std::max(std::max(xl.norm(), xref.norm()), nb / std::max(LD(smax), LD(1e-300)));
   // (1) constraints: |Bx| <= c * eps * cond(B) * |B| |x|   (x is Q * (0,z): backward error of the Householder QR of B^T)
   if (k) {
     LD viol = (Bl * xl).norm();
